@@ -38,12 +38,16 @@ import (
 )
 
 type c14Ev struct {
-	K string // enrol | closed | lookup | track | start | end | rmstream | enrolrace
+	K string // enrol | closed | lookup | track | start | end | rmstream | enrolrace | block | reenrolrace
+	//              block: Service.blockPeer(peer P, forever)
+	//              reenrolrace: connection C closes; while the notification of that is being consumed
+	//              connection C2 of the same peer is enrolled
 	//              enrolrace: addPeer on an open connection that closes while addPeer runs: its
 	//              Disconnected notification is started (in its own goroutine, as the swarm does)
 	//              from inside the IsClosed query, which then still answers false
 	P      int  // peer index (enrol, closed, lookup, rmstream)
 	C      int  // connection serial within the peer (enrol, closed)
+	C2     int  // reenrolrace: the new connection
 	A      int  // address index proven in the handshake (enrol)
 	R      int  // role proven in the handshake (enrol)
 	Closed bool // Conn.IsClosed() at the time of addPeer (enrol); addPeer then answers true and tracks nothing
@@ -70,7 +74,8 @@ type c14Step struct {
 	Ev    c14Ev // the event this step reports (an "enrolrace" input yields an enrol and a closed step)
 	Ret   int64
 	Panic bool
-	Seen  bool // false: the state right after the event could not be observed
+	Seen  bool  // false: the state right after the event could not be observed
+	Pend  int64 // notifications in flight when the call of this step returned
 	Snap  c14Snap
 }
 
@@ -163,11 +168,20 @@ func (*c14Buf) Close() error { return nil }
 func (*c14Buf) Reset() error { return nil }
 
 type c14World struct {
-	mu    sync.Mutex
-	cur   *c14Stream
-	abort bool
-	notes []int64
-	addrs map[common.Address]int
+	mu      sync.Mutex
+	cur     *c14Stream
+	abort   bool
+	notes   []int64
+	addrs   map[common.Address]int
+	pending int           // disconnect notifications started and not yet returned
+	parkAt  chan struct{} // one-shot: the next notification signals here and waits for parkRel
+	parkRel chan struct{}
+}
+
+func (w *c14World) pendingNow() int64 {
+	w.mu.Lock()
+	defer w.mu.Unlock()
+	return int64(w.pending)
 }
 
 func (w *c14World) current() *c14Stream {
@@ -195,12 +209,23 @@ func (c *c14Ctx) Done() <-chan struct{} {
 func (w *c14World) Connected(p2p.Peer) {}
 func (w *c14World) Disconnected(p p2p.Peer) {
 	w.mu.Lock()
+	w.pending++
+	at, rel := w.parkAt, w.parkRel
+	w.parkAt, w.parkRel = nil, nil
+	w.mu.Unlock()
+	if at != nil {
+		// a slow consumer (the topology): the event is applied when the call proceeds
+		close(at)
+		<-rel
+	}
+	w.mu.Lock()
 	defer w.mu.Unlock()
 	a, found := w.addrs[p.EthAddress]
 	if !found {
 		a = -1
 	}
 	w.notes = append(w.notes, int64(a), int64(p.Type))
+	w.pending--
 }
 
 const c14Wait = 30 * time.Second
@@ -248,6 +273,7 @@ func c14Run(in c14In, hdrFrame []byte, slow int) (obs c14Obs) {
 		logger:     logger,
 		metrics:    new(metrics),
 		hsInflight: make(map[peer.ID][]chan struct{}),
+		blockMap:   make(map[peer.ID]blockInfo),
 	}
 	svc.peers.setDisconnector(svc)
 	svc.SetNotifier(w)
@@ -357,7 +383,68 @@ func c14Run(in c14In, hdrFrame []byte, slow int) (obs c14Obs) {
 		return sn
 	}
 
-	for _, ev := range in.Evs {
+	for _, ev := range c14Expand(in.Evs) {
+		if ev.K == "reenrolrace" {
+			cOld, cNew := conns[ev.P][ev.C], conns[ev.P][ev.C2]
+			closedEv := c14Ev{K: "closed", P: ev.P, C: ev.C}
+			enrolEv := c14Ev{K: "enrol", P: ev.P, C: ev.C2, A: ev.A, R: ev.R}
+			newPeer := &p2p.Peer{EthAddress: c14Addr(ev.A), Type: p2p.PeerType(ev.R)}
+			at, rel := make(chan struct{}), make(chan struct{})
+			w.mu.Lock()
+			w.parkAt, w.parkRel = at, rel
+			w.mu.Unlock()
+			doneA := make(chan struct{})
+			var panicA bool
+			cOld.closed, cNew.closed = true, false
+			go func() {
+				defer close(doneA)
+				defer func() {
+					if r := recover(); r != nil {
+						panicA = true
+					}
+				}()
+				reg.Disconnected(nil, cOld)
+			}()
+			parked := c14Await("reenrolrace", at, doneA) == 0
+			cOld.notified = true
+			if !parked {
+				// not the last connection (or untracked): no notification, nothing to overlap
+				w.mu.Lock()
+				w.parkAt, w.parkRel = nil, nil
+				w.mu.Unlock()
+				obs.Steps = append(obs.Steps, c14Step{Ev: closedEv, Panic: panicA, Seen: true, Pend: w.pendingNow(), Snap: snapshot()})
+				st := c14Step{Ev: enrolEv, Seen: true}
+				if reg.addPeer(cNew, newPeer) {
+					st.Ret = 1
+				}
+				st.Pend = w.pendingNow()
+				st.Snap = snapshot()
+				obs.Steps = append(obs.Steps, st)
+				continue
+			}
+			// the notification is being consumed; meanwhile the peer comes back on a new connection
+			doneB := make(chan struct{})
+			var ret, pend int64
+			go func() {
+				defer close(doneB)
+				if reg.addPeer(cNew, newPeer) {
+					ret = 1
+				}
+				pend = w.pendingNow()
+			}()
+			t := time.NewTimer(time.Duration(slow) * 20 * time.Millisecond)
+			select {
+			case <-doneB:
+			case <-t.C:
+			}
+			t.Stop()
+			close(rel)
+			c14Await("reenrolrace-notify", doneA)
+			c14Await("reenrolrace-enrol", doneB)
+			obs.Steps = append(obs.Steps, c14Step{Ev: closedEv, Panic: panicA},
+				c14Step{Ev: enrolEv, Ret: ret, Seen: true, Pend: pend, Snap: snapshot()})
+			continue
+		}
 		if ev.K == "enrolrace" && conns[ev.P][ev.C].notified {
 			ev.K, ev.Closed = "enrol", true // already closed and notified: an ordinary late enrolment
 		}
@@ -495,10 +582,13 @@ func c14Run(in c14In, hdrFrame []byte, slow int) (obs c14Obs) {
 				} else {
 					reg.removeStream(pids[ev.P], &c14Stream{idx: ev.S})
 				}
+			case "block":
+				svc.blockPeer(pids[ev.P], 0, "verif")
 			default:
 				panic("c14: unknown event " + ev.K)
 			}
 		}()
+		st.Pend = w.pendingNow()
 		st.Snap = snapshot()
 		obs.Steps = append(obs.Steps, st)
 	}
@@ -525,6 +615,31 @@ func c14Run(in c14In, hdrFrame []byte, slow int) (obs c14Obs) {
 		setCur(nil)
 	}
 	return obs
+}
+
+// reenrolrace needs an open, not yet notified pair of distinct connections of one peer; otherwise
+// it is an ordinary closure followed by an ordinary enrolment
+func c14Expand(evs []c14Ev) []c14Ev {
+	notified := map[[2]int]bool{}
+	var out []c14Ev
+	for _, ev := range evs {
+		switch ev.K {
+		case "closed", "enrolrace":
+			out = append(out, ev)
+			notified[[2]int{ev.P, ev.C}] = true
+		case "reenrolrace":
+			if ev.C == ev.C2 || notified[[2]int{ev.P, ev.C}] || notified[[2]int{ev.P, ev.C2}] {
+				out = append(out, c14Ev{K: "closed", P: ev.P, C: ev.C},
+					c14Ev{K: "enrol", P: ev.P, C: ev.C2, A: ev.A, R: ev.R})
+			} else {
+				out = append(out, ev)
+			}
+			notified[[2]int{ev.P, ev.C}] = true
+		default:
+			out = append(out, ev)
+		}
+	}
+	return out
 }
 
 // the tracked connections of one peer, read through reflection so that the driver does not depend
@@ -608,12 +723,14 @@ func c14Coq(id int, in c14In, obs c14Obs) string {
 			t = coqApp("SEnd", coqN(uint64(ev.S)))
 		case "rmstream":
 			t = coqApp("RemoveStream", coqN(uint64(ev.P)), coqN(uint64(ev.S)))
+		case "block":
+			t = coqApp("BlockPeer", coqN(uint64(ev.P)))
 		}
 		sn := st.Snap
 		snap := coqRecord("sn_over", c14Zss(sn.Over), "sn_under", c14Zss(sn.Under), "sn_conns", c14Zss(sn.Conns),
 			"sn_streams", c14Zss(sn.Streams), "sn_notes", c14Zs(sn.Notes), "sn_sw", c14Zs(sn.Sw),
 			"sn_ctx", c14Zs(sn.Ctx), "sn_started", c14Zs(sn.Started))
-		evs = append(evs, coqRecord("o_ev", t, "o_ret", coqZ(st.Ret), "o_panic", coqBool(st.Panic), "o_seen", coqBool(st.Seen), "o_snap", snap))
+		evs = append(evs, coqRecord("o_ev", t, "o_ret", coqZ(st.Ret), "o_panic", coqBool(st.Panic), "o_seen", coqBool(st.Seen), "o_pending", coqZ(st.Pend), "o_snap", snap))
 	}
 	return coqRecord("id", coqN(uint64(id)), "c_np", coqN(uint64(in.NP)), "c_nc", coqN(uint64(in.NC)),
 		"c_na", coqN(uint64(in.NA)), "c_ns", coqN(uint64(in.NS)), "c_evs", coqList(evs))
@@ -705,7 +822,11 @@ func (g *c14Gen) randomEvent() {
 	case x < 19:
 		g.streamStep(g.r.Intn(g.in.NS))
 	default:
-		g.add(c14Ev{K: "rmstream", S: g.r.Intn(g.in.NS), P: p})
+		if g.r.Intn(2) == 0 {
+			g.add(c14Ev{K: "block", P: p})
+		} else {
+			g.add(c14Ev{K: "rmstream", S: g.r.Intn(g.in.NS), P: p})
+		}
 	}
 }
 
@@ -853,6 +974,72 @@ func c14GenCloseDuringEnrol(r *rand.Rand) c14In {
 	return g.in
 }
 
+// a registered peer is blocked (a later handshake of it failed) and then its connections close
+func c14GenBlockRegistered(r *rand.Rand) c14In {
+	g := c14NewGen(r, false)
+	p := r.Intn(g.in.NP)
+	g.add(c14Ev{K: "enrol", P: p, C: 0, A: p, R: g.roles[p]})
+	g.enrolled[[2]int{p, 0}] = true
+	if r.Intn(2) == 0 {
+		g.enrol(p, 1)
+	}
+	if r.Intn(2) == 0 {
+		g.swPeer[0] = p
+		g.add(c14Ev{K: "lookup", S: 0, P: p})
+		g.sw[0] = 1
+		if r.Intn(2) == 0 {
+			g.streamStep(0)
+		}
+	}
+	g.add(c14Ev{K: "block", P: p})
+	if r.Intn(3) == 0 {
+		g.add(c14Ev{K: "block", P: (p + 1) % g.in.NP})
+	}
+	if g.sw[0] == 1 {
+		g.streamStep(0)
+	}
+	g.closeConn(p, 0)
+	if g.enrolled[[2]int{p, 1}] {
+		g.closeConn(p, 1)
+	}
+	for i := r.Intn(4); i > 0; i-- {
+		g.randomEvent()
+	}
+	return g.in
+}
+
+// the peer comes back on a new connection while the notification of its disconnect is consumed
+func c14GenReenrolDuringNotify(r *rand.Rand) c14In {
+	g := c14NewGen(r, false)
+	p := r.Intn(g.in.NP)
+	g.add(c14Ev{K: "enrol", P: p, C: 0, A: p, R: g.roles[p]})
+	g.enrolled[[2]int{p, 0}] = true
+	if r.Intn(4) == 0 {
+		g.enrol(p, 2) // then the closure of connection 0 is not the last one
+	}
+	if r.Intn(2) == 0 {
+		g.swPeer[0] = p
+		g.add(c14Ev{K: "lookup", S: 0, P: p})
+		g.sw[0] = 1
+		g.streamStep(0)
+	}
+	g.add(c14Ev{K: "reenrolrace", P: p, C: 0, C2: 1, A: p, R: g.roles[p]})
+	g.notified[[2]int{p, 0}] = true
+	g.enrolled[[2]int{p, 1}] = true
+	s := 1 + r.Intn(g.in.NS-1)
+	g.swPeer[s] = p
+	g.add(c14Ev{K: "lookup", S: s, P: p})
+	g.sw[s] = 1
+	g.streamStep(s)
+	if r.Intn(2) == 0 {
+		g.closeConn(p, 1)
+	}
+	for i := r.Intn(4); i > 0; i-- {
+		g.randomEvent()
+	}
+	return g.in
+}
+
 func TestVerifC14(t *testing.T) {
 	e := vfOpen(t, 100)
 	defer e.Close()
@@ -867,7 +1054,7 @@ func TestVerifC14(t *testing.T) {
 			return
 		}
 		for _, ev := range in.Evs {
-			if ev.P < 0 || ev.P >= in.NP || ev.C < 0 || ev.C >= in.NC || ev.A < 0 || ev.A >= in.NA || ev.S < 0 || ev.S >= in.NS {
+			if ev.P < 0 || ev.P >= in.NP || ev.C < 0 || ev.C >= in.NC || ev.C2 < 0 || ev.C2 >= in.NC || ev.A < 0 || ev.A >= in.NA || ev.S < 0 || ev.S >= in.NS {
 				return
 			}
 		}
@@ -890,6 +1077,8 @@ func TestVerifC14(t *testing.T) {
 	run("pinned", small(c14Ev{K: "enrol"}, c14Ev{K: "lookup"}, c14Ev{K: "closed"}, c14Ev{K: "track"}, c14Ev{K: "start"}))
 	run("pinned", small(c14Ev{K: "enrol"}, c14Ev{K: "lookup"}, c14Ev{K: "track"}, c14Ev{K: "start"}, c14Ev{K: "closed"}, c14Ev{K: "end"}))
 	run("pinned", small(c14Ev{K: "lookup"}, c14Ev{K: "track"}, c14Ev{K: "enrol"}, c14Ev{K: "closed"}, c14Ev{K: "closed"}))
+	run("pinned", small(c14Ev{K: "enrol"}, c14Ev{K: "block"}, c14Ev{K: "closed"}))
+	run("pinned", c14In{NP: 1, NC: 2, NA: 1, NS: 1, Evs: []c14Ev{{K: "enrol"}, {K: "reenrolrace", C: 0, C2: 1}, {K: "closed", C: 1}}})
 	run("pinned", small(c14Ev{K: "enrolrace"}))
 	run("pinned", small(c14Ev{K: "enrolrace"}, c14Ev{K: "lookup"}, c14Ev{K: "track"}, c14Ev{K: "start"}))
 	run("pinned", c14In{NP: 2, NC: 2, NA: 2, NS: 2, Evs: []c14Ev{{K: "enrol", P: 0, C: 0, A: 0, R: 1}, {K: "enrol", P: 0, C: 1, A: 0, R: 1},
@@ -926,7 +1115,14 @@ func TestVerifC14(t *testing.T) {
 		case 3:
 			run("multi-conn", c14GenMultiConn(e.rng))
 		case 4:
-			run("close-before-enrol", c14GenCloseBeforeEnrol(e.rng))
+			switch (i / 8) % 3 {
+			case 0:
+				run("close-before-enrol", c14GenCloseBeforeEnrol(e.rng))
+			case 1:
+				run("block-registered", c14GenBlockRegistered(e.rng))
+			default:
+				run("reenrol-during-notify", c14GenReenrolDuringNotify(e.rng))
+			}
 		case 5:
 			run("lookup-race", c14GenLookupRace(e.rng))
 		case 6:
